@@ -94,7 +94,8 @@ func cbool(c map[string]interface{}, k string) bool {
 // ---------------------------------------------------------------- abstract programs
 
 type Op struct {
-	A      string // call create ETX CONVERT UNWRAP CLAIM xfail | stop revert fail sd ret retoog
+	A      string // call dcall ccall scall create create2 ETX CONVERT UNWRAP CLAIM xfail | stop revert fail wp sd ret retoog
+	WpOp   string // wp: the state-modifying instruction attempted in a read-only context (call create create2 sd ETX CONVERT sstore log)
 	Target string
 	V      int64
 	Sub    *Script
@@ -108,9 +109,31 @@ type Op struct {
 
 type Script struct {
 	id     int
-	host   string
+	host   string // account whose code holds the script ("N": init code)
+	self   string // executing address: the host, except in DELEGATECALL / CALLCODE frames (the caller's)
+	static bool   // read-only context (random programs)
 	isInit bool
 	ops    []*Op
+}
+
+// frame-entering operations
+var callOps = map[string]bool{"call": true, "dcall": true, "ccall": true, "scall": true}
+var createOps = map[string]bool{"create": true, "create2": true}
+
+// assignSelf computes the executing address of every script
+func assignSelf(s *Script, self string) {
+	s.self = self
+	for _, o := range s.ops {
+		if o.Sub == nil {
+			continue
+		}
+		switch o.A {
+		case "dcall", "ccall":
+			assignSelf(o.Sub, self)
+		default:
+			assignSelf(o.Sub, o.Sub.host)
+		}
+	}
 }
 
 type Tx struct {
@@ -128,7 +151,7 @@ type Tx struct {
 	Body  *Script
 }
 
-var endOps = map[string]bool{"stop": true, "revert": true, "fail": true, "sd": true, "ret": true, "retoog": true}
+var endOps = map[string]bool{"stop": true, "revert": true, "fail": true, "wp": true, "sd": true, "ret": true, "retoog": true}
 var sendOps = map[string]bool{"ETX": true, "CONVERT": true, "UNWRAP": true, "CLAIM": true, "XCALL": true}
 
 // parseBehaviour splits a specification history into transactions; exp[i] are the records of transaction i.
@@ -208,16 +231,16 @@ func (ps *parser) parseFrame(steps []*Step, i int, host string, isInit bool, dep
 	for i < len(steps) {
 		s := steps[i]
 		switch {
-		case s.A == "call" || s.A == "create":
+		case callOps[s.A] || createOps[s.A]:
 			op := &Op{A: s.A, Target: s.Y, V: s.V}
 			i++
 			if cbool(s.C, "enter") {
 				var err error
 				h := s.Y
-				if s.A == "create" {
+				if createOps[s.A] {
 					h = "N"
 				}
-				op.Sub, i, err = ps.parseFrame(steps, i, h, s.A == "create", depth+1)
+				op.Sub, i, err = ps.parseFrame(steps, i, h, createOps[s.A], depth+1)
 				if err != nil {
 					return nil, i, err
 				}
@@ -235,6 +258,10 @@ func (ps *parser) parseFrame(steps []*Step, i int, host string, isInit bool, dep
 			sc.ops = append(sc.ops, &Op{A: cstr(s.C, "k"), Dest: s.Y, Amt: s.V, Gl: cstr(s.C, "gl"), Fee: cstr(s.C, "fee"), Al: cstr(s.C, "al")})
 			ps.aborting = true
 			return endAbort()
+		case s.A == "fail" && cstr(s.C, "k") == "wp":
+			// exceptional halt by write protection: the frame attempts the named instruction in a read-only context
+			sc.ops = append(sc.ops, &Op{A: "wp", WpOp: cstr(s.C, "op")})
+			return sc, i + 1, nil
 		case endOps[s.A]:
 			sc.ops = append(sc.ops, &Op{A: s.A, Target: s.Y})
 			return sc, i + 1, nil
@@ -286,6 +313,7 @@ func idWord(id int) []byte {
 func (w *World) compile(tx *Tx) *Program {
 	c := &compiler{w: w, prog: &Program{hostCode: map[string][]byte{}}, next: 1, hosts: map[string][]*Script{}}
 	if tx.Body != nil {
+		assignSelf(tx.Body, tx.Body.host)
 		c.number(tx.Body)
 		c.collect(tx.Body)
 	}
@@ -296,7 +324,7 @@ func (w *World) compile(tx *Tx) *Program {
 	}
 	switch {
 	case tx.Kind == "create" && tx.Body != nil:
-		u := c.initUnit(tx.Body, tx.Payer)
+		u := c.initUnit(tx.Body, tx.Payer, false)
 		c.prog.txData = u.code
 	case tx.Body != nil:
 		c.prog.txData = idWord(tx.Body.id)
@@ -377,7 +405,7 @@ func (w *World) validCreate(creator common.Address, nonce uint64, code []byte) b
 	return err == nil
 }
 
-func (c *compiler) initUnit(s *Script, creator string) *Unit {
+func (c *compiler) initUnit(s *Script, creator string, create2 bool) *Unit {
 	a := newAsm()
 	var blobs []blob
 	a.markHere(markEntry, s, nil)
@@ -388,7 +416,7 @@ func (c *compiler) initUnit(s *Script, creator string) *Unit {
 		a.raw(b.code)
 	}
 	code := a.assemble()
-	if !c.w.noSalt {
+	if !c.w.noSalt && !create2 {
 		// trailing (unreachable) salt bytes chosen so that address grinding succeeds for the next few nonces of the creator
 		ca := c.w.addrOf(creator)
 		n0 := uint64(0)
@@ -415,11 +443,75 @@ const (
 )
 
 func (c *compiler) body(a *asm, s *Script, blobs *[]blob) {
-	w := c.w
 	a.pushU(0x77) // sentinel below every operand: a missing status word does not underflow the stack
 	for _, o := range s.ops {
+		c.emitOp(a, s, o, blobs)
+	}
+	a.op(vm.STOP)
+}
+
+// wpOp is the instruction (with well-formed operands) a read-only frame attempts
+func (c *compiler) wpOp(o *Op) *Op {
+	switch o.WpOp {
+	case "call":
+		return &Op{A: "call", Target: "F", V: 1}
+	case "create", "create2":
+		return &Op{A: o.WpOp, V: 0}
+	case "sd":
+		return &Op{A: "sd", Target: "F"}
+	case "ETX":
+		return &Op{A: "ETX", Dest: "elig", Amt: 1, Gl: "ok", Fee: "one", Al: "empty"}
+	case "CONVERT":
+		return &Op{A: "CONVERT", Dest: "qiown", Amt: params.MinQuaiConversionAmount.Int64(), Gl: "ok"}
+	case "sstore", "log":
+		return &Op{A: o.WpOp}
+	}
+	panic("unknown write-protected instruction " + o.WpOp)
+}
+
+func (c *compiler) emitOp(a *asm, s *Script, o *Op, blobs *[]blob) {
+	w := c.w
+	{
 		switch o.A {
-		case "call", "xfail":
+		case "wp":
+			c.emitOp(a, s, c.wpOp(o), blobs)
+		case "sstore":
+			a.pushU(1)
+			a.pushU(1)
+			a.markHere(markOp, s, o)
+			a.op(vm.SSTORE)
+		case "log":
+			a.pushU(0)
+			a.pushU(0)
+			a.markHere(markOp, s, o)
+			a.op(vm.LOG0)
+		case "dcall", "scall":
+			id := 0
+			if o.Sub != nil {
+				id = o.Sub.id
+			}
+			a.pushRaw(idWord(id))
+			a.pushU(0)
+			a.op(vm.MSTORE)
+			a.pushU(0)  // retSize
+			a.pushU(0)  // retOffset
+			a.pushU(32) // inSize
+			a.pushU(0)  // inOffset
+			a.pushRaw(w.addrOf(o.Target).Bytes())
+			if o.Sub != nil {
+				a.pushU(need(o.Sub) + plainCallGas)
+			} else {
+				a.pushU(plainCallGas)
+			}
+			a.markHere(markOp, s, o)
+			if o.A == "dcall" {
+				a.op(vm.DELEGATECALL)
+			} else {
+				a.op(vm.STATICCALL)
+			}
+			a.markHere(markAfter, s, o)
+			a.op(vm.JUMPDEST)
+		case "call", "ccall", "xfail":
 			id := 0
 			if o.Sub != nil {
 				id = o.Sub.id
@@ -447,15 +539,23 @@ func (c *compiler) body(a *asm, s *Script, blobs *[]blob) {
 				a.pushU(plainCallGas)
 			}
 			a.markHere(markOp, s, o)
-			a.op(vm.CALL)
+			if o.A == "ccall" {
+				a.op(vm.CALLCODE)
+			} else {
+				a.op(vm.CALL)
+			}
 			a.markHere(markAfter, s, o)
 			a.op(vm.JUMPDEST) // observation point; the status word stays on the stack (an exit that pushes none must not underflow it)
-		case "create":
+		case "create", "create2":
 			var code []byte
 			if o.Sub != nil {
-				code = c.initUnit(o.Sub, s.host).code
+				code = c.initUnit(o.Sub, s.self, o.A == "create2").code
 			} else {
 				code = []byte{byte(vm.STOP)}
+			}
+			if o.A == "create2" {
+				// no address grinding for CREATE2: a salt whose address lies in this zone's Quai ledger (address derivation only)
+				a.pushRaw(c.w.create2Salt(c.w.addrOf(s.self), code))
 			}
 			lbl := fmt.Sprintf("blob%d_%d", s.id, a.pc())
 			*blobs = append(*blobs, blob{lbl, code})
@@ -467,7 +567,11 @@ func (c *compiler) body(a *asm, s *Script, blobs *[]blob) {
 			a.pushU(0)
 			a.pushBig(amount(o.V))
 			a.markHere(markOp, s, o)
-			a.op(vm.CREATE)
+			if o.A == "create2" {
+				a.op(vm.CREATE2)
+			} else {
+				a.op(vm.CREATE)
+			}
 			a.markHere(markAfter, s, o)
 			a.op(vm.JUMPDEST) // observation point; the status word stays on the stack (an exit that pushes none must not underflow it)
 		case "ETX":
@@ -568,7 +672,18 @@ func (c *compiler) body(a *asm, s *Script, blobs *[]blob) {
 			panic("cannot compile op " + o.A)
 		}
 	}
-	a.op(vm.STOP)
+}
+
+// create2Salt finds a salt for which CREATE2 from `creator` with `code` yields an address of this zone's Quai ledger
+func (w *World) create2Salt(creator common.Address, code []byte) []byte {
+	h := crypto.Keccak256Hash(code)
+	var salt [32]byte
+	for i := uint64(0); ; i++ {
+		binary.BigEndian.PutUint64(salt[24:], i)
+		if _, err := crypto.CreateAddress2(creator, salt, h.Bytes(), loc).InternalAndQuaiAddress(); err == nil {
+			return salt[:]
+		}
+	}
 }
 
 const (
@@ -585,13 +700,15 @@ func need(s *Script) uint64 {
 	n := uint64(scriptBaseGas)
 	for _, o := range s.ops {
 		switch o.A {
-		case "call", "xfail":
+		case "call", "xfail", "dcall", "ccall", "scall":
 			n += callOverhead
 			n += plainCallGas
 			if o.Sub != nil {
 				n += need(o.Sub) + need(o.Sub)/32
 			}
-		case "create":
+		case "wp":
+			n += 3000
+		case "create", "create2":
 			n += createGas
 			if o.Sub != nil {
 				n += need(o.Sub) + need(o.Sub)/32
